@@ -523,6 +523,79 @@ def run(chk):
             elif after and conforming and kind != "elf32-nophdr":
                 chk.sample({"header": kind, "blocks": replay["blocks"], "pattern": p, "model": mline[-160:]}, cap=6)
 
+    # ------------------------------------------------------------ part 5: what the caller owns is part of every entry point's result
+    # (a monitor on the implementation, not a theorem: the model has no descriptors).  One descriptor kept open
+    # across several fd scans through both fd entry points, unrelated files opened in between (a descriptor number
+    # the library closed would be reused by them); every entry point: caller's buffer unchanged, scanned file
+    # unchanged, descriptor still open / same file / same position, no descriptor leaked - also on failing paths.
+    K = vlib.consts()
+    orules = mk([("S", 0), ("C", 0, 2), ("Z", 6), ("U", 1, 98), ("S", 3)])
+    obufs = [b"abcabc", b"", b"a", bytes(ebufs[4]), b"cabcabca"]
+    if not quick:
+        obufs += [bytes(rng.choice(b"abcx") for _ in range(rng.range(1, 60))) for _ in range(12)]
+    ocases = []
+    for bi, buf in enumerate(obufs):
+        hxb = vlib.hx(buf)
+        cmds = orules.commands() + ["rscan 0 0 " + hxb]
+        cmds += ["own %s 0 %s" % (e, hxb) for e in ("rmem", "smem", "rfile", "sfile", "rfd", "sfd")]
+        cmds += ["fdopen %s %d" % (hxb, min(2, len(buf)))]
+        order = ["r", "s", "r", "r", "s", "s", "r"]
+        rng.shuffle(order)
+        order = ["r"] + order          # the rules-level entry first at least once, then a mix
+        for w in order:
+            cmds += ["fdscan %s 0" % w, "fddecoy " + vlib.hx(b"zzzz" + bytes(rng.choice(b"abc") for _ in range(5)))]
+        cmds += ["fdend", "own rfd 0 " + hxb]
+        if bi == 0:
+            cmds += ["ownpath %s %s" % (e, k) for e in ("rfile", "sfile") for k in ("missing", "dir", "empty", "unreadable")]
+        ocases.append(("o%d" % bi, cmds))
+    oo, _ = vlib.run_cases(h, ocases, timeout=900)
+    n_own = 0
+    for (cid, cmds), buf in zip(ocases, obufs):
+        lines = [l for l in oo.get(cid, []) if l.startswith("scan msgs=") or l.startswith("own ") or l.startswith("crash")]
+        if not lines or any(l.startswith("crash") for l in lines) or not lines[0].startswith("scan msgs="):
+            chk.violation("own-crash", "resource case %s crashed or printed nothing: %s" % (cid, lines[-2:]), {"harness_commands": cmds}, found_input=False)
+            continue
+        ref = protolib.parse_scan(lines[0])
+        pairs = list(zip(lines[1::2], lines[2::2]))
+        short = len(buf) < 200
+        for scan_l, own_l in pairs:
+            n_own += 1
+            got = protolib.parse_scan(scan_l)
+            f = dict(x.split("=", 1) for x in own_l.split(" ")[1:])
+            replay = {"rules": orules.describe(), "buffer_hex": vlib.hx(buf) if short else "len=%d" % len(buf),
+                      "harness_commands": cmds if short else "see checks/c13.py part 5", "entry": f.get("entry"), "impl": [scan_l, own_l],
+                      "reference": lines[0] if short else lines[0][:200]}
+            if "path" in f:
+                exp_rc = {"missing": K["ERROR_COULD_NOT_OPEN_FILE"], "dir": K["ERROR_COULD_NOT_OPEN_FILE"], "empty": 0,
+                          "unreadable": 0 if f.get("euid") == "0" else K["ERROR_COULD_NOT_OPEN_FILE"]}[f["path"]]
+                if got is None or got[1] != exp_rc or (exp_rc != 0 and got[0]):
+                    chk.violation("own:path-rc", "%s on a %s path: rc/callbacks %s, expected rc=%d" % (f["entry"], f["path"], scan_l, exp_rc), replay)
+                if f.get("fds") != "0":
+                    chk.violation("own:fd-leak", "%s on a %s path changes the number of open descriptors by %s" % (f["entry"], f["path"], f.get("fds")), replay)
+                continue
+            if got is None or (got[0], got[1]) != (ref[0], ref[1]):
+                chk.violation("own:result:" + f.get("entry", "?"), "entry %s on %d bytes (descriptor kept open, other files opened in between) differs from "
+                              "yr_rules_scan_mem of the same bytes: %s vs %s" % (f.get("entry"), len(buf), scan_l[:300], lines[0][:300]), replay)
+            bad = []
+            if f.get("buf", "same") != "same":
+                bad.append("the caller's buffer was written")
+            if f.get("file", "same") != "same":
+                bad.append("the scanned file was modified")
+            if "fd" in f:
+                st = f["fd"].split(",")
+                if st[0] != "open":
+                    bad.append("the caller's descriptor was closed by the library")
+                else:
+                    if st[1] != "same":
+                        bad.append("the caller's descriptor refers to another file")
+                    now, was = st[2].split("=")[1].split(":")          # pos=<now>:<before>
+                    if now != was:
+                        bad.append("the descriptor's file position moved from %s to %s" % (was, now))
+            if f.get("fds") != "0":
+                bad.append("number of open descriptors changed by " + str(f.get("fds")))
+            if bad:
+                chk.violation("own:" + f.get("entry", "?"), "entry %s on %d bytes: %s (%s)" % (f.get("entry"), len(buf), "; ".join(bad), own_l), replay)
+
     # ------------------------------------------------------------ exploration (outside the proved statements)
     # (b) an iterator whose first() rewinds before it knows whether it is ready: the retry (which calls next()) skips block 0
     r2 = mk([("C", 0, 2)])
@@ -533,9 +606,9 @@ def run(chk):
         "position_keeping": str(fin["keep"]), "rewinding": str(fin["naive"]), "first_block_lost": fin["keep"][1] != fin["naive"][1],
         "what": "capi.rst does not say that after a not-ready first() the scanner continues with next(); an iterator that "
                 "sets its position in first() before the readiness test loses block 0 on the retry"}
-    chk.note(evaluations=n_runs + n_entry + n_aband + n_ep, distinct_nontrivial=len([d for d in distinct if "1" in d[2]]),
-             traces_validated_against_impl=n_runs + n_entry + n_aband + n_ep, interrupted_runs=n_interrupted, conforming_patterns=n_conf,
-             patterns_outside_contract=n_nonconf, follow_up_scans=n_follow, entry_point_scans=n_entry, abandoned_scan_scenarios=n_aband, entrypoint_runs=n_ep, entrypoint_runs_interrupted_after_header_block=n_ep_after, observations=obs,
+    chk.note(evaluations=n_runs + n_entry + n_aband + n_ep + n_own, distinct_nontrivial=len([d for d in distinct if "1" in d[2]]),
+             traces_validated_against_impl=n_runs + n_entry + n_aband + n_ep + n_own, interrupted_runs=n_interrupted, conforming_patterns=n_conf,
+             patterns_outside_contract=n_nonconf, follow_up_scans=n_follow, entry_point_scans=n_entry, abandoned_scan_scenarios=n_aband, owned_resource_scans=n_own, entrypoint_runs=n_ep, entrypoint_runs_interrupted_after_header_block=n_ep_after, observations=obs,
              rule="one evaluation = one complete run (all calls until the scan completes) or one entry-point scan; distinct = different "
                   "(buffer, block partition incl. null-data blocks, file_size known?, not-ready pattern); non-trivial = at least one "
                   "not-ready answer")
@@ -548,6 +621,9 @@ def run(chk):
         "(the read is undefined, the scan succeeds); they are outside resume_equivalent's premise",
         "yr_scanner_scan_mem's TOO_SLOW_SCANNING pre-check (buffers > 200000 bytes with a root-state atom) is not modelled: buffers stay small",
         "mmap / open / fstat of filemap.c are exercised, not modelled; an empty file is modelled as data = NULL, size 0",
+        "resources the caller owns (descriptor open / same file / same position, buffer checksum, file identity and mtime, number of "
+        "open descriptors before/after, also on failing paths) are monitored on the implementation for every entry point; the model "
+        "has no descriptors, so this part is correspondence with yr_rules_scan_mem plus invariants, not a theorem",
         "yr_get_entry_point_offset is an oracle of the model: the generator builds minimal ELF32 / ELF64 / PE headers and tells the model "
         "the offset they map the entry point to (an ELF whose entry cannot be mapped gives 0, not undefined); the one-shot run of every "
         "block sequence is compared with the model too, which checks those claims"]
